@@ -155,6 +155,14 @@ class _ScanWrap:
         self.it.close()
 
 
+_TMP_RE = __import__("re").compile(r"thread-\d+-pid-\d+")
+
+
+def _canon_name(n):
+    n = os.fsdecode(n) if isinstance(n, bytes) else n
+    return _TMP_RE.sub("thread-X-pid-X", n)
+
+
 def _path_of(name, a, k):
     p = a[0] if a else k.get("path", k.get("src"))
     dfd = k.get("dir_fd")
@@ -194,10 +202,11 @@ def install(plan):
             finally:
                 _inside[0] -= 1
             if p is not None and PLAN.relevant(p):
+                # canonical order first (names of temporary files contain pids and thread ids), then the seeded permutation
                 if name == "scandir":
-                    return _ScanWrap(r, PLAN.shuffle(list(r)))
+                    return _ScanWrap(r, PLAN.shuffle(sorted(r, key=lambda e: _canon_name(e.name))))
                 if name == "listdir":
-                    return PLAN.shuffle(list(r))
+                    return PLAN.shuffle(sorted(r, key=_canon_name))
             return r
         w.__name__ = name
         return w
